@@ -746,6 +746,18 @@ func (w *run) clientRPC(conn *grpc.ClientConn, st *rpcState) {
 			}
 		}
 	}
+	if w.sc.has("terminal") && cs != nil {
+		// the status is terminal: a further RecvMsg fails at once, it neither
+		// blocks nor delivers a message
+		m := &Msg{}
+		t0 := time.Now()
+		err := cs.RecvMsg(m)
+		if err == nil {
+			e.Violate("message_after_final_status", "rpc %d: RecvMsg delivered a message of %d bytes after the RPC had ended with %v", r.ID, len(m.B), st.clientStatus.Code())
+		} else if d := time.Since(t0); d > 10*time.Millisecond {
+			e.Violate("recv_after_final_status_blocked", "rpc %d: RecvMsg after the final status blocked for %v", r.ID, d)
+		}
+	}
 }
 
 func (w *run) noteRecv(st *rpcState, b []byte, cs grpc.ClientStream) {
@@ -859,18 +871,10 @@ func (w *run) sink(f *tap.Frame) {
 	v := w.views[f.Conn]
 	switch {
 	case f.From == 'c' && f.Phase == 'w':
-		if f.Type == http2.FrameData && f.Length == 0 && w.led.CheckWindows {
-			// an empty DATA frame consumes no flow-control credit and may be sent
-			// with a zero or negative window (RFC 9113 6.9); the shared ledger
-			// checks the window on every DATA frame, so it does not see this one
-			// as a window event
-			w.led.CheckWindows = false
-			w.led.Sink(f)
-			w.led.CheckWindows = true
+		if f.Type == http2.FrameData && f.Length == 0 {
 			w.e.Probe("empty_data_frame")
-		} else {
-			w.led.Sink(f)
 		}
+		w.led.Sink(f)
 		v.clientWrote(f)
 	case f.From == 's' && f.Phase == 'd':
 		w.led.Sink(f)
